@@ -440,7 +440,7 @@ theorem disabled_frame (body : List Op) :
           refine ih d0 d' _ p0 base hb (by simp [stepSt, hs]) (by simpa using hp) ?_ ?_ hno'
           · simp [stepSt, hs, hall v List.mem_cons_self]
           · exact fun w hw => hall w (List.mem_cons_of_mem _ hw)
-    | getDisabled | getRun | construct _ | validate _ | assign _ _ =>
+    | getDisabled | getRun | construct _ | validate _ | assign _ _ _ =>
       simp only [Op.isEnter, Op.isExit, Bool.false_eq_true, if_false] at hb
       exact ih d d' _ p base hb (by simp [stepSt, hs]) hp (by simp [stepSt, hr]) hall hno'
 
@@ -597,7 +597,7 @@ theorem stepOk_model (c : Case) (hI : ∀ cls ∈ c.classes, C02.wf (initCase cl
     | some cls =>
       have h := construct_spec cls run c.fault (hI cls (List.mem_of_getElem? hk))
       simp only [runOutcome, stepObs, hk, mkStep, stepSt, h.1, h.2, beq_self_eq_true, Bool.and_self]
-  | assign k i =>
+  | assign k i v =>
     cases hk : c.classes[k]? with
     | none => simp [opOk, hk] at ha
     | some cls =>
